@@ -35,7 +35,7 @@ PROPERTY = "C36"
 LEVEL = "translation_validation"
 ROOT = os.path.dirname(os.path.dirname(os.path.abspath(__file__)))
 JOB_TIMEOUT = {"quick": 280, "thorough": 1700}
-SMALL = {"quick": (-2, 5), "thorough": (-3, 7)}
+SMALL = {"quick": (-2, 5), "thorough": (-3, 6)}
 BOUNDS = {
     "quick": {"programs": "corpus/pyprogs.py: 149 enumerated (every operator x operand shape, all operator pairs, every "
                           "comparison, and/or nestings, if/elif/else, 4 loop skeletons x 12 body kinds incl. break/continue/"
@@ -44,7 +44,7 @@ BOUNDS = {
               "symbolic": "both arguments; full range [-2**63, 2**63) unless the parameter reaches a loop bound, a loop "
                           "condition or a condition/call inside a loop (syntactic taint, props/C36.py:loop_tainted): then [-2, 5]",
               "unwinding": "4000 IR instructions, 300 decisions per path; cut paths are counted (none expected)"},
-    "thorough": {"programs": "149 enumerated + 1400 seeded random programs", "symbolic": "as quick, loop-related parameters in [-3, 7]",
+    "thorough": {"programs": "149 enumerated + 1400 seeded random programs", "symbolic": "as quick, loop-related parameters in [-3, 6]",
                  "unwinding": "8000 IR instructions, 400 decisions per path"},
 }
 OUTSIDE = ["float arithmetic (the IR reference semantics has no floats) and str parameters",
@@ -316,6 +316,9 @@ def mk_batch(specs, tag="", tier="quick"):
                 res["nontrivial"] += 1
         res["disagreements_checked"] += len(r.get("violations", [])) + len(r.get("known_hits", []))
         res["wall_s"] += r.get("wall_s", 0.0)
+        if os.environ.get("VERIF_C36_TIMES"):
+            print(f"TIME {spec['pid']} {r.get('wall_s', 0.0):.1f}s paths={r.get('stats', {}).get('paths', 0)} "
+                  f"solver={r.get('stats', {}).get('solver_s', 0.0) + r.get('solver', {}).get('solver_s', 0.0):.1f}s", flush=True)
     res["funcs"] = sorted(funcs)
     return res
 
